@@ -180,6 +180,38 @@ def r_getvar(model, rep):
         return T.contains(t, ok)
     tf = any(has_type_filter(t) for t in neg)
     af = any(has_arch_filter(t) for t in neg)
+    if not (tf and af and not pos):
+        # another spelling of the two filters (one positive condition, a filtered generator ...): decided on the truth table of
+        # the conditions the append is under, over "types given", "type in types", "arch given", "arch admitted"
+        def decider(a, b, c, d_):
+            def decide(t):
+                if t == ("param", "types"):
+                    return a
+                if t == ("param", "arch"):
+                    return c
+                if t[0] == "cmp" and t[1] == ("in",) and t[2][0] == ("attr", elem, "type") and T.contains(t[2][1], lambda y: y == ("param", "types")):
+                    return b
+                if t[0] == "cmp" and t[1] == ("in",) and t[2][0] == ("param", "arch") and T.contains(t[2][1], lambda y: y == ("attr", elem, "arches")) \
+                        and T.contains(t[2][1], lambda y: y == ("const", "src")):
+                    return d_
+                return None
+            return decide
+        table_ok = True
+        for a in (False, True):
+            for b in (False, True):
+                for c in (False, True):
+                    for d_ in (False, True):
+                        dec = decider(a, b, c, d_)
+                        vals = [T.truth(g[0], dec) for g in ap.guards if g[0][0] != "exc"]
+                        if any(v is None for v in vals):
+                            table_ok = False
+                            continue
+                        got = all(v is g[1] for v, g in zip(vals, [g for g in ap.guards if g[0][0] != "exc"]))
+                        table_ok = table_ok and got == ((not a or b) and (not c or d_))
+        if table_ok:
+            tf = af = True
+            pos = []
+            neg = []
     rep.ob("R-GETVAR", "get_variants:type-filter-before-append", tf and not pos, site=cx.site(ap.lineno),
            msg="" if tf and not pos else "the append is not dominated by the type filter (variant.type not in types -> skip)"
            if not tf else "append is additionally conditional: %s" % [T.show(g[0]) for g in pos])
@@ -369,10 +401,13 @@ def r_forest_validators(model, rep):
     gcx = facts.fctx(model, gi)
     name = ("param", gcx.params[1])
     rets = [ev for ev in gcx.events if ev.kind == "return"]
-    direct = any(r.value == ("sub", ("attr", ("param", gcx.selfname), "variants"), name) for r in rets)
-    scan = any(r.value[0] == "sub" and any(g[1] and g[0][0] == "cmp" and g[0][1] == ("==",) and
-                                           T.contains(g[0], lambda x: x[0] == "attr" and x[2] == "uid") and T.contains(g[0], lambda x: x == name)
-                                           for g in r.guards) for r in rets)
+    # (whatever the spelling: returns of the method itself, or of a locating helper whose result is then subscripted)
+    direct = any(a == ("sub", ("attr", ("param", gcx.selfname), "variants"), name) for r in rets for a in T.alts(r.value))
+    found = rets + [ev for ev in gcx.events if ev.kind == "bind" and ev.extra == "inlined-return"]
+    scan = any(T.contains(r.value, lambda x: x[0] == "elem" and x[1] == ("attr", ("param", gcx.selfname), "variants"))
+               and any(g[1] and g[0][0] == "cmp" and g[0][1] == ("==",) and
+                       T.contains(g[0], lambda x: x[0] == "attr" and x[2] == "uid") and T.contains(g[0], lambda x: x == name)
+                       for g in r.guards) for r in found)
     rep.ob("R-FOREST-VALIDATORS", "VariantBase.__getitem__", direct and scan, site=gcx.site(gi.node),
            msg="" if direct and scan else "lookup by id (self.variants[name]) or the UID scan is missing")
 
